@@ -1,4 +1,3 @@
-from copy import deepcopy
 from enum import IntEnum
 from struct import pack
 
@@ -65,11 +64,11 @@ class Pattern:
         have been processed successfully; only then do the new notes become
         part of the pattern.
         """
-        new = deepcopy(self.data)
+        new = self._copy_data()
         for line in range(self.lines):
             for track in range(self.tracks):
                 new[line][track] = fn(self, line, track)
-        self._data = new
+        self._install_data(new)
         return self
 
     def set_via_gen(self, gen):
@@ -85,11 +84,29 @@ class Pattern:
         The generator must stop iteration at some point, or this method will
         never return.
         """
-        new = deepcopy(self.data)
+        new = self._copy_data()
         for line, track, note in gen(self, new):
             new[line][track] = note
-        self._data = new
+        self._install_data(new)
         return self
+
+    def _copy_data(self):
+        """Copy of the note grid whose notes do not drag the project along."""
+        new = []
+        for line in self.data:
+            new_line = []
+            for note in line:
+                copy = note.clone()
+                copy.pattern = self
+                new_line.append(copy)
+            new.append(new_line)
+        return new
+
+    def _install_data(self, new):
+        for line in new:
+            for note in line:
+                note.pattern = self
+        self._data = new
 
     def iff_chunks(self):
         yield b"PDTA", self.raw_data
